@@ -1322,7 +1322,13 @@ impl<'input, T: Input> Scanner<'input, T> {
                         ));
                     }
                 };
-                code = byte;
+                // Keep the payload bits of the leading byte.
+                code = match width {
+                    1 => byte,
+                    2 => byte & 0x1F,
+                    3 => byte & 0x0F,
+                    _ => byte & 0x07,
+                };
             } else {
                 if byte & 0xc0 != 0x80 {
                     return Err(ScanError::new_str(
@@ -1330,7 +1336,7 @@ impl<'input, T: Input> Scanner<'input, T> {
                         "while parsing a tag, found an incorrect trailing UTF-8 byte",
                     ));
                 }
-                code = (code << 8) + byte;
+                code = (code << 6) + (byte & 0x3F);
             }
 
             self.skip_n_non_blank(3);
